@@ -50,7 +50,8 @@ static long double mono_int(int k, double a, double b) { return (powl((long doub
 
 static void check_dgmlt()
 {
-  const double intervals[][2] = {{0, 1}, {-1, 1}, {0.5, 3.034}, {-2.5, -0.25}, {1e-4, 4.3}};
+  // forward and reversed intervals (the integral changes sign with the orientation)
+  const double intervals[][2] = {{0, 1}, {-1, 1}, {0.5, 3.034}, {-2.5, -0.25}, {1e-4, 4.3}, {1, 0}, {1, -1}, {3.034, 0.5}, {-0.25, -2.5}};
   const int NIs[] = {1, 2, 3, 8, 16};
   for (int which = 1; which <= 2; which++)
     for (int NG : {6, 8})
@@ -66,6 +67,7 @@ static void check_dgmlt()
             long double sc = 0;
             {
               double a = iv[0], b = iv[1];
+              if (a > b) std::swap(a, b);
               if (a >= 0 || b <= 0) sc = fabsl(ex);
               else sc = (powl(-a, k + 1) + powl(b, k + 1)) / (k + 1);
             }
